@@ -8,6 +8,10 @@ use std::sync::atomic::{AtomicBool, Ordering};
 use std::sync::{Arc, Mutex};
 use std::time::{Duration, Instant};
 
+/// When set, the broker answers a Basic.Cancel with a Channel.Close (406) for that channel
+/// instead of CancelOk (a server may close a channel at any moment, e.g. while a cancel is on its way).
+pub static CLOSE_CHANNEL_ON_CANCEL: AtomicBool = AtomicBool::new(false);
+
 fn gen_loop<F: Fn(&mut [u8]) -> Result<usize, usize>>(f: F) -> Vec<u8> {
     let mut buf = vec![0u8; 512];
     loop {
@@ -232,6 +236,9 @@ pub fn auto_broker(peer: Peer, cfg: AutoConfig, stop: Arc<AtomicBool>, seen: Arc
                 (60, 20) => {
                     ctag += 1;
                     Some(method(ch, AMQPClass::Basic(basic::AMQPMethod::ConsumeOk(basic::ConsumeOk { consumer_tag: format!("ctag-{}-{}", ch, ctag) }))))
+                }
+                (60, 30) if CLOSE_CHANNEL_ON_CANCEL.load(Ordering::SeqCst) => {
+                    Some(method(ch, AMQPClass::Channel(channel::AMQPMethod::Close(channel::Close { reply_code: 406, reply_text: "PRECONDITION_FAILED - closing".into(), class_id: 60, method_id: 30 }))))
                 }
                 (60, 30) => {
                     // cancel: echo the tag
